@@ -1503,7 +1503,8 @@ def convert_mul_max_to_abs_or_lrelu(op: Operation, arch, nng) -> Operation:
             mul_ofm_scale = np.double(mul_ofm.quantization.scale_f32)
             alpha_scale, alpha_shift = scaling.elementwise_mul_scale(mul_ifm_scale, mul_ifm2_scale, mul_ofm_scale)
             op.attrs["alpha_scaling"] = (alpha_scalar, alpha_scale, alpha_shift)
-        elif val == -1:
+        elif const_tens.quantization.dequantize(val) == -1:
+            # the slope constant denotes -1 (its quantised value alone does not tell)
             new_op = Op.Abs
         else:
             return op
